@@ -1522,6 +1522,65 @@ def mem_outside_guard(rep, cfg, paths, only=None):
                       signature="C03/SubFS/outside-modified")
 
 
+def relative_root_phase(rep):
+    """an OSFS opened on a RELATIVE directory name: the root is fixed when the filesystem is opened; a later
+    chdir of the process must not move it (every method would then act outside the directory it was opened on)"""
+    import tempfile
+    from fs.osfs import OSFS
+
+    base = tempfile.mkdtemp(prefix="relroot-", dir=H.SCRATCH_ROOT if os.path.isdir(H.SCRATCH_ROOT) else None)
+    home, other = os.path.join(base, "home"), os.path.join(base, "elsewhere")
+    for d in (home, other):
+        os.makedirs(os.path.join(d, "jail", "sub"))
+    open(os.path.join(home, "jail", "in.txt"), "w").write("inside")
+    open(os.path.join(other, "jail", "secret.txt"), "w").write("canary")
+    open(os.path.join(other, "jail", "in.txt"), "w").write("canary-in")
+
+    def tree(d):
+        out = []
+        for r, ds, fs_ in os.walk(d):
+            for n in sorted(ds + fs_):
+                q = os.path.join(r, n)
+                out.append((os.path.relpath(q, d), open(q).read() if os.path.isfile(q) else None))
+        return sorted(out)
+
+    cwd0 = os.getcwd()
+    bad = []
+    try:
+        os.chdir(home)
+        o = OSFS("jail")
+        os.chdir(other)
+        before_other = tree(other)
+        calls = [("listdir", lambda: sorted(o.listdir("/")), ["in.txt", "sub"]),
+                 ("readtext", lambda: o.readtext("in.txt"), "inside"),
+                 ("getsyspath", lambda: o.getsyspath("in.txt"), os.path.join(home, "jail", "in.txt")),
+                 ("writetext", lambda: o.writetext("new.txt", "n"), None),
+                 ("makedirs", lambda: bool(o.makedirs("a/b")), True),
+                 ("remove", lambda: o.remove("in.txt"), None),
+                 ("removetree", lambda: o.removetree("sub"), None)]
+        for name, fn, want in calls:
+            rep.evaluations += 1
+            try:
+                got = fn()
+            except Exception as e:  # noqa
+                got = "raised " + type(e).__name__
+            if got != want:
+                bad.append("%s -> %r (the directory it was opened on says %r)" % (name, got, want))
+        if tree(other) != before_other:
+            bad.append("the directory of the same name below the NEW working directory changed: %r -> %r" % (before_other, tree(other)))
+        want_home = [("a", None), (os.path.join("a", "b"), None), ("new.txt", "n")]
+        if tree(os.path.join(home, "jail")) != want_home:
+            bad.append("the root it was opened on holds %r, expected %r" % (tree(os.path.join(home, "jail")), want_home))
+        o.close()
+    finally:
+        os.chdir(cwd0)
+        shutil.rmtree(base, ignore_errors=True)
+    rep.nontrivial("relative-root")
+    if bad:
+        rep.violation({"relative_root": True}, "OSFS('jail') opened from %s, then chdir(%s): %s" % ("<tmp>/home", "<tmp>/elsewhere", "; ".join(bad[:4])),
+                      found_input=True, signature="C03/osfs/relative-root-follows-chdir")
+
+
 def run(rep, tier, seed, deep=False):
     drv = vlib.Driver()
     rng = vlib.rng_for(seed, "c03")
@@ -1549,6 +1608,7 @@ def run(rep, tier, seed, deep=False):
         table_crosscheck(rep)
         arena = make_arena("main", L_main + 1)
         model_correspondence(rep, drv, paths_main, arena)
+        relative_root_phase(rep)
         rep.extra["t_model"] = round(time.time() - t0, 1)
         rec = Recorder()
         with Patched(rec):
@@ -1608,6 +1668,9 @@ def run(rep, tier, seed, deep=False):
 
 def replay(rep, case):
     c = case["case"]
+    if c.get("relative_root"):
+        relative_root_phase(rep)
+        return 1 if rep.violations else 0
     if "function" in c:
         drv = vlib.Driver()
         print("model-vs-code case:", json.dumps(c)[:400])
